@@ -29,24 +29,24 @@ TOTALITY_ALLOW = {
 
 def run(c):
     # --- validation precedes any use of the header
-    c.r1("validate-before-store", P + "process_block_header", VH, sink=P + "add_block_header", via=0)
-    c.r1("validate-before-extending", P + "process_block_header", VH, sink="grin_chain::txhashset::txhashset::header_extending", via=0)
-    c.r1("validate-before-head", P + "process_block_header", VH, sink=P + "update_header_head", via=0)
+    c.r1("validate-before-store", P + "process_block_header", VH, sink=P + "add_block_header", via=2)
+    c.r1("validate-before-extending", P + "process_block_header", VH, sink="grin_chain::txhashset::txhashset::header_extending", via=2)
+    c.r1("validate-before-head", P + "process_block_header", VH, sink=P + "update_header_head", via=2)
     c.loop("headers-validate-each", P + "process_block_headers", VH, over=r"arg0")
-    c.r1("headers-validate-before-store", P + "process_block_headers", VH, sink=P + "add_block_header", via=0)
+    c.r1("headers-validate-before-store", P + "process_block_headers", VH, sink=P + "add_block_header", via=2)
     c.r3("validate_header-callers", VH, {P + "process_block_header", P + "process_block_headers"}, floor_sites=2)
     c.r3("add_block_header-callers", P + "add_block_header", {P + "process_block_header", P + "process_block_headers"}, floor_sites=2)
     # --- guard table of validate_header
     c.r2("ctx-rules", VH, cond=r"^discr\(pipe::validate_header_ctx\(arg0, arg1\)\)$", fail_on=True, desc="validate_header applies the context (denylist) rules") if False else \
-        c.r1("ctx-rules", VH, P + "validate_header_ctx", via=0)
-    c.r1("prev-header", VH, P + "prev_header_store", via=0, desc="validate_header: the previous header must be known (orphan otherwise)")
+        c.r1("ctx-rules", VH, P + "validate_header_ctx", via=2)
+    c.r1("prev-header", VH, P + "prev_header_store", via=2, desc="validate_header: the previous header must be known (orphan otherwise)")
     c.r2("height", VH, ops={"Ne"}, lhs=["arg0.height"], rhs=["re:^call:pipe::prev_header_store$", "op:AddWithOverflow", "const:1", "re:\\.height$"], err="InvalidBlockHeight")
     c.r2("version", VH, cond=r"^consensus::valid_header_version\(arg0\.height, arg0\.version\)$", fail_on=False, err="InvalidBlockVersion")
     c.r2("timestamp", VH, ops={"Le"}, lhs=["arg0.timestamp"], rhs=["re:^call:pipe::prev_header_store$", "re:\\.timestamp$"], err="InvalidBlockTime")
     c.r2("mmr-outputs", VH, ops={"Eq"}, lhs=["call:BlockHeader::output_mmr_count", "call:num::saturating_sub", "arg0"], rhs=["const:0"], err="InvalidMMRSize")
     c.r2("mmr-kernels", VH, ops={"Eq"}, lhs=["call:BlockHeader::kernel_mmr_count", "call:num::saturating_sub", "arg0"], rhs=["const:0"], err="InvalidMMRSize")
     c.r2("weight", VH, ops={"Gt"}, lhs=["call:TransactionBody::weight_by_iok"], rhs=["call:global::max_block_weight"], err="TooHeavy")
-    c.r1("pow", VH, P + "validate_pow_only", via=0, extra_cuts=c.true_edges(VH, SKIP[0]), desc="validate_header: ok => validate_pow_only, only bypass SKIP_POW")
+    c.r1("pow", VH, P + "validate_pow_only", via=2, extra_cuts=c.true_edges(VH, SKIP[0]), desc="validate_header: ok => validate_pow_only, only bypass SKIP_POW")
     c.r2("total-difficulty-increases", VH, ops={"Le"}, lhs=["call:BlockHeader::total_difficulty", "arg0"], rhs=["call:BlockHeader::total_difficulty", "re:^call:pipe::prev_header_store$"],
          err="DifficultyTooLow", bypass=[SKIP])
     c.r2("pow-reaches-target", VH, ops={"Lt"}, lhs=["call:ProofOfWork::to_difficulty", "arg0.pow", "arg0.height"], rhs=["call:Sub::sub", "call:BlockHeader::total_difficulty"],
@@ -93,21 +93,21 @@ def run(c):
     else:
         c.record("verifier-slot", "R3", None, "the PoW verifier fn-pointer slot only ever holds pow::verify_size (%d reifications)" % len(reif), "hold", [r[0] for r in reif])
     c.r2_arg("verify_size-ctx", "grin_core::pow::verify_size", "grin_core::global::create_pow_context", 1, must=["re:^call:ProofOfWork::edge_bits$", "arg0.pow"])
-    c.r1("verify_size-verifies", "grin_core::pow::verify_size", "grin_core::pow::types::PoWContext::verify", via=0)
-    c.r1("verify_size-sets-header", "grin_core::pow::verify_size", "grin_core::pow::types::PoWContext::set_header_nonce", sink="grin_core::pow::types::PoWContext::verify", via=0)
+    c.r1("verify_size-verifies", "grin_core::pow::verify_size", "grin_core::pow::types::PoWContext::verify", via=2)
+    c.r1("verify_size-sets-header", "grin_core::pow::verify_size", "grin_core::pow::types::PoWContext::set_header_nonce", sink="grin_core::pow::types::PoWContext::verify", via=2)
     # --- header MMR root check before apply
     CL = P + "process_block_header@txhashset::txhashset::header_extending"
-    c.r1("root-before-apply", CL, HX + "validate_root", sink=HX + "apply_header", via=0)
-    c.r1("fork-before-root", CL, P + "rewind_and_apply_header_fork", sink=HX + "validate_root", via=0)
+    c.r1("root-before-apply", CL, HX + "validate_root", sink=HX + "apply_header", via=2)
+    c.r1("fork-before-root", CL, P + "rewind_and_apply_header_fork", sink=HX + "validate_root", via=2)
     c.loop("fork-root-before-apply", P + "rewind_and_apply_header_fork", HX + "validate_root", over=r"Vec::new")
-    c.r1("fork-root-before-apply-order", P + "rewind_and_apply_header_fork", HX + "validate_root", sink=HX + "apply_header", via=0)
+    c.r1("fork-root-before-apply-order", P + "rewind_and_apply_header_fork", HX + "validate_root", sink=HX + "apply_header", via=2)
     c.r2("root-matches", HX + "validate_root", ops={"Ne"}, lhs=["call:HeaderExtension::root"], rhs=["arg1.prev_root"], err="InvalidRoot", bypass=[(r"^Eq\(arg1\.height, 0\)$", "true")])
     # --- untrusted header read-time guards
     UH = "<grin_core::core::block::UntrustedBlockHeader as grin_core::ser::Readable>::read"
     c.r2("ut-future-time", UH, ops={"Gt"}, lhs=["re:\\.timestamp$"], rhs=["call:Utc::now", "call:global::get_future_time_limit"], err="CorruptedData")
     c.r2("ut-version", UH, cond=r"^consensus::valid_header_version\(.*\.height, .*\.version\)$", fail_on=False, err="InvalidBlockVersion")
     c.r2("ut-edge-bits", UH, cond=r"^ProofOfWork::is_secondary\(", fail_on=False, err="CorruptedData", bypass=[(r"^ProofOfWork::is_primary\(", "true")])
-    c.r1("ut-pow", UH, "grin_core::pow::verify_size", via=0)
+    c.r1("ut-pow", UH, "grin_core::pow::verify_size", via=2)
     c.r2("ut-weight", UH, ops={"Gt"}, lhs=["call:TransactionBody::weight_by_iok"], rhs=["call:global::max_block_weight", "op:MulWithOverflow", "op:AddWithOverflow"], err="CorruptedData")
     # --- retarget funnels
     c.r2_ret("dma-min", CO + "next_dma_difficulty", must=["call:cmp::max", "re:^item:consensus::MIN_DMA_DIFFICULTY=", "call:consensus::clamp", "call:consensus::damp"])
